@@ -8,7 +8,7 @@ from .c01 import classify_block_writes
 
 PID = "C15"
 META = {
-    "explanation": "Static analysis of the block cut rule on the MIR of the current tree: in Writer::insert every path from the data-block insert to a return passes the test `block_writer.current_size_estimate() >= self.block_size` (non-strict; same writer; field), whose true edge reaches the flush of that writer; the level loop applies the same test to each visited index writer and iterates last-to-first over index_block_writers[1..] (the constant 1: the root and the level directly below it are never cut during insert); block_size is clamped with max(MIN_BLOCK_SIZE = 1024, arg), has no other writer, and the sorter passes its setting through that setter; current_size_estimate = buffer.len() + index_offsets.len() * 8 + 4, exactly the widths finish() appends (u64 per offset, one u32 count); a flushed writer is emptied by the finished block's Drop before the next insert can see it. Physical sizes of compressed blocks are not decided. Entries are appended to a Writer's data block from Writer::insert only. (R7) the cut is conditioned on the block holding a key: BlockWriter::last_key() is a pure view that is Some exactly when an entry was inserted since the last flush, and both flush sites test exactly that.",
+    "explanation": "Static analysis of the block cut rule on the MIR of the current tree: in Writer::insert every path from the data-block insert to a return passes the test `block_writer.current_size_estimate() >= self.block_size` (non-strict; same writer; field), whose true edge reaches the flush of that writer; the level loop applies the same test to each visited index writer and iterates last-to-first over index_block_writers[1..] (the constant 1: the root and the level directly below it are never cut during insert); block_size is clamped with max(MIN_BLOCK_SIZE = 1024, arg), has no other writer, and the sorter passes its setting through that setter; current_size_estimate = buffer.len() + index_offsets.len() * 8 + 4, exactly the widths finish() appends (u64 per offset, one u32 count); a flushed writer is emptied by the finished block's Drop before the next insert can see it. Physical sizes of compressed blocks are not decided. Entries are appended to a Writer's data block from Writer::insert only. (R7) the cut is conditioned on the block holding a key: BlockWriter::last_key() is a pure view that is Some exactly when an entry was inserted since the last flush, and both flush sites test exactly that. The sorter's whole configuration plumbing (setters included) is re-run so that a configured block size reaches the clamp.",
     "assumptions": ["compress_and_write_block finishes (and thereby resets) the writer it is given"],
 }
 
@@ -29,6 +29,8 @@ def run(ck):
         # an entry was inserted since the last flush, and the flush sites test exactly that (shared with C01-R8)
         from .c01 import r8_pending_block
         ck.guard("C15-R7", r8_pending_block, ck, F, "C15-R7")
+        # (the whole configuration plumbing of the sorter, setters included: `block_size(0)` must reach the clamp)
+        ck.guard("C15-R6", r8_config, ck, F, "C15-R6")
     ck.trusted += ["rustc MIR construction"]
 
 
